@@ -3,6 +3,8 @@ and records the full row in seeded/<id>/meta.json["matrix"].   usage: seed_matri
 import json, os, pathlib, subprocess, sys, time
 from concurrent.futures import ThreadPoolExecutor
 
+REPO = os.environ.get("VERIF_REPO", "/repo")   # the tree the patches are applied to (a scratch clone when set)
+
 ROOT = pathlib.Path(__file__).resolve().parent.parent
 par = int(sys.argv[1]) if len(sys.argv) > 1 else 6
 only = sys.argv[2:]
@@ -21,7 +23,7 @@ def run(p):
     return p, {"exit": rc, "violations": len(lines), "nfi": any(l.endswith("no-failing-input-found") for l in lines), "wall_s": round(time.time() - t, 1)}
 
 
-assert sh("git status --porcelain --untracked-files=no", cwd="/repo")[1].strip() == "", "/repo is not clean"
+assert sh("git status --porcelain --untracked-files=no", cwd=REPO)[1].strip() == "", "/repo is not clean"
 for d in sorted((ROOT / "seeded").iterdir()):
     if only and d.name not in only:
         continue
@@ -29,7 +31,7 @@ for d in sorted((ROOT / "seeded").iterdir()):
     if not mp.exists():
         continue
     meta = json.loads(mp.read_text())
-    rc, o = sh(["git", "apply", str(d / "patch.diff")], cwd="/repo")
+    rc, o = sh(["git", "apply", str(d / "patch.diff")], cwd=REPO)
     if rc != 0:
         print(d.name, "patch does not apply:", o[:200])
         continue
@@ -37,7 +39,7 @@ for d in sorted((ROOT / "seeded").iterdir()):
         with ThreadPoolExecutor(par) as ex:
             row = dict(ex.map(run, props))
     finally:
-        sh("git checkout -- .", cwd="/repo")
+        sh("git checkout -- .", cwd=REPO)
     meta["matrix"] = row
     meta["detected_by"] = [p for p in props if row[p]["exit"] == 1]
     mp.write_text(json.dumps(meta, indent=1))
